@@ -116,3 +116,12 @@ Theorem C05_projected_ring_orientations : forall (P Q c : pt3 R) (theta : R), P 
     orientR (project (pt3_sub Q P) (placed (mt4_look_at_lh P Q up_z) theta c p1)) (project (pt3_sub Q P) (placed (mt4_look_at_lh P Q up_z) theta c p2))
             (project (pt3_sub Q P) (placed (mt4_look_at_lh P Q up_z) theta c p3)) = D * orientR p1 p2 p3.
 Proof. exact projected_ring_scales. Qed.
+
+(* cylinder, in full: the n-point circle of radius r at z = 0 and at z = h, and the signed volume in closed form
+   (six times the volume is 3 h n r^2 sin(360/n); negative = clockwise seen from outside) *)
+From SCAD Require Import Geom.Dim2 Geom.Tri_convex.
+Theorem C05_cylinder : forall (r h : R) (segments : Z) ph, cylinder r h segments = Some ph -> r <> 0 ->
+  exists c, circle r segments = Some c /\ length c = Z.to_nat segments /\ (forall p, In p c -> pt2_len2 p = r * r) /\
+    fst ph = map (fun p => Pt3 (x2 p) (y2 p) 0) c ++ map (fun p => Pt3 (x2 p) (y2 p) h) c /\
+    vol6 (fst ph) (snd ph) = - (3 * h * (IZR segments * (r * r) * dsin (360 / IZR segments))).
+Proof. exact cylinder_described. Qed.
